@@ -34,7 +34,15 @@ const STOPS: [StopBits; 2] = [StopBits::Stop1, StopBits::Stop2];
 const FLOWS: [FlowControl; 3] = [FlowControl::FlowNone, FlowControl::FlowSoftware, FlowControl::FlowHardware];
 const PRIOR_TIMEOUTS_MS: [u64; 3] = [0, 1, 3_600_000];
 const CALLER_TIMEOUTS_MS: [u64; 4] = [0, 1, 5_000, 3_600_000];
-const KINDS: [serial_core::ErrorKind; 3] = [serial_core::ErrorKind::NoDevice, serial_core::ErrorKind::InvalidInput, serial_core::ErrorKind::Io(std::io::ErrorKind::PermissionDenied)];
+const KINDS: [serial_core::ErrorKind; 5] = [
+    serial_core::ErrorKind::NoDevice,
+    serial_core::ErrorKind::InvalidInput,
+    serial_core::ErrorKind::Io(std::io::ErrorKind::PermissionDenied),
+    // the two kinds a caller might be tempted to retry
+    serial_core::ErrorKind::Io(std::io::ErrorKind::Interrupted),
+    serial_core::ErrorKind::Io(std::io::ErrorKind::WouldBlock),
+];
+const N_KINDS: u64 = 5;
 const CALLS: [CfgCall; 4] = [CfgCall::ReadSettings, CfgCall::SetBaudRate, CfgCall::WriteSettings, CfgCall::SetTimeout];
 
 #[derive(Clone, Debug)]
@@ -59,7 +67,7 @@ fn case_json(c: &Case, idx: u64) -> Value {
 }
 
 const N_CTOR: u64 = 6;
-const N_FAULT: u64 = 13; // none + 4 calls x 3 kinds
+const N_FAULT: u64 = 1 + 4 * N_KINDS; // none + 4 calls x 5 kinds
 const N_OCC: u64 = 4; // every occurrence, or only the 1st / 2nd / 3rd
 
 pub fn total_cases() -> u64 {
@@ -84,7 +92,7 @@ pub fn nth_case(mut i: u64) -> Case {
     let cs = CHARS[(i % 4) as usize];
     i /= 4;
     let baud = bauds()[i as usize];
-    Case { line: Line { baud, char_size: cs, parity: par, stop_bits: stop, flow }, prior_timeout_ms: pt, ctor, fault: if f == 0 { None } else { Some((((f - 1) / 3) as usize, ((f - 1) % 3) as usize)) }, occurrence }
+    Case { line: Line { baud, char_size: cs, parity: par, stop_bits: stop, flow }, prior_timeout_ms: pt, ctor, fault: if f == 0 { None } else { Some((((f - 1) / N_KINDS) as usize, ((f - 1) % N_KINDS) as usize)) }, occurrence }
 }
 
 pub fn check_case(c: &Case) -> (String, Vec<(&'static str, String, String)>) {
@@ -169,8 +177,26 @@ pub fn check_case(c: &Case) -> (String, Vec<(&'static str, String, String)>) {
                 }
             }
             (Some((call, kind)), Ok(())) => {
-                outcome = format!("swallowed:{:?}", call);
-                out.push(("error-propagated", format!("{}:{:?}:swallowed-{:?}", ctor_name, call, kind), format!("{:?} failed with {:?} but the constructor returned an object (line now {:?}, timeout {:?})", call, kind, *line.borrow(), *timeout.borrow())));
+                // The failing call was reached and the constructor still returned an object. If the call fails every
+                // time the port has refused and an error is due. If it failed once only, trying again is allowed,
+                // but then the object must be fully configured: line settings written, a timeout set successfully.
+                let got = *line.borrow();
+                let wrote = events.iter().any(|e| matches!(e, Ev::WriteSettings(_, Ok(()))));
+                let timeout_set = events.iter().any(|e| matches!(e, Ev::SetTimeout(_, Ok(()))));
+                let applied = *timeout.borrow();
+                let timeout_ok = timeout_set && match want_timeout {
+                    Some(w) => applied == w,
+                    None => !applied.is_zero(),
+                };
+                if c.occurrence == 0 {
+                    outcome = format!("swallowed:{:?}", call);
+                    out.push(("error-propagated", format!("{}:{:?}:swallowed-{:?}", ctor_name, call, kind), format!("{:?} failed with {:?} every time but the constructor returned an object (line now {:?}, timeout {:?})", call, kind, got, applied)));
+                } else if got != WANT_LINE || !wrote || !timeout_ok {
+                    outcome = format!("half-configured-after:{:?}", call);
+                    out.push(("error-propagated", format!("{}:{:?}:half-configured-after-{:?}", ctor_name, call, kind), format!("{:?} failed once with {:?}; the constructor returned an object that is not fully configured (line {:?}, settings written: {}, timeout set: {} = {:?})", call, kind, got, wrote, timeout_set, applied)));
+                } else {
+                    outcome = format!("retried-ok:{:?}", call);
+                }
             }
         },
     }
@@ -185,7 +211,23 @@ pub fn run(ctx: &Ctx) -> Report {
         .into();
     rep.trusted_base = vec!["devices.rs ScriptPort/ScriptSettings".into(), "serial-core's blanket SerialPort::reconfigure".into()];
     let n = total_cases();
-    let accs = par_range(n, 512, Acc::default, |acc, i| {
+    // Cases are visited in a fixed stride permutation of the index space, so that every value of every dimension
+    // (each prior baud rate, each constructor, each fault) is met early, and the budget is polled: a set-up routine
+    // that waits (say one character time at the old rate) makes a full pass take hours, and the run must then stop
+    // with what it has, non-exhaustively, instead of hanging.
+    const STRIDE: u64 = 1_000_003;
+    let skipped = std::sync::atomic::AtomicU64::new(0);
+    let over = std::sync::atomic::AtomicBool::new(false);
+    let budget = ctx.clone();
+    let accs = par_range(n, 512, Acc::default, |acc, j| {
+        let i = ((j as u128 * STRIDE as u128) % n as u128) as u64;
+        if over.load(std::sync::atomic::Ordering::Relaxed) {
+            skipped.fetch_add(1, std::sync::atomic::Ordering::Relaxed);
+            return;
+        }
+        if j % 64 == 0 && budget.over_budget() {
+            over.store(true, std::sync::atomic::Ordering::Relaxed);
+        }
         let c = nth_case(i);
         acc.evals += 1;
         acc.nontrivial_fp.push(i);
@@ -198,6 +240,10 @@ pub fn run(ctx: &Ctx) -> Report {
     let mut all = Acc::default();
     for a in accs {
         all.merge(ID, a);
+    }
+    let skipped = skipped.load(std::sync::atomic::Ordering::Relaxed);
+    if skipped > 0 {
+        rep.cap(format!("wall-clock budget reached: {} of {} constructions were not run (the others were taken in a stride permutation over all dimensions)", skipped, n));
     }
     for i in [0u64, 4000, n / 2 + 7, n - 1] {
         all.samples.push(case_json(&nth_case(i), i));
